@@ -20,6 +20,8 @@ type deviceStatements struct {
 	updateStateStatement *sql.Stmt
 	deleteStatement      *sql.Stmt
 	updateStatement      *sql.Stmt
+	advanceUpStatement   *sql.Stmt
+	nextDownStatement    *sql.Stmt
 }
 
 func (d *deviceStatements) Close() {
@@ -32,6 +34,8 @@ func (d *deviceStatements) Close() {
 	d.updateStateStatement.Close()
 	d.deleteStatement.Close()
 	d.updateStatement.Close()
+	d.advanceUpStatement.Close()
+	d.nextDownStatement.Close()
 }
 
 func (d *deviceStatements) prepare(db *sql.DB) error {
@@ -150,6 +154,16 @@ func (d *deviceStatements) prepare(db *sql.DB) error {
 	updateState := `UPDATE lora_devices SET fcnt_dn = $1, fcnt_up = $2, key_warning = $3 WHERE eui = $4`
 	if d.updateStateStatement, err = db.Prepare(updateState); err != nil {
 		return fmt.Errorf("unable to prepare update state statement: %v", err)
+	}
+
+	advanceUp := `UPDATE lora_devices SET fcnt_up = $1, key_warning = $2 WHERE eui = $3 AND fcnt_up <= $4`
+	if d.advanceUpStatement, err = db.Prepare(advanceUp); err != nil {
+		return fmt.Errorf("unable to prepare uplink counter statement: %v", err)
+	}
+
+	nextDown := `UPDATE lora_devices SET fcnt_dn = (fcnt_dn + 1) % 65536 WHERE eui = $1 RETURNING fcnt_dn`
+	if d.nextDownStatement, err = db.Prepare(nextDown); err != nil {
+		return fmt.Errorf("unable to prepare downlink counter statement: %v", err)
 	}
 
 	delete := `DELETE FROM lora_devices WHERE eui = $1`
@@ -351,6 +365,33 @@ func (s *Storage) UpdateDeviceState(device model.Device) error {
 	return s.doSQLExec(s.devStmt.updateStateStatement, func(st *sql.Stmt) (sql.Result, error) {
 		return st.Exec(device.FCntDn, device.FCntUp, device.KeyWarning, device.DeviceEUI.ToInt64())
 	})
+}
+
+// AdvanceFCntUp stores newFCntUp as the next expected uplink frame counter (and the key
+// warning flag), provided the stored counter has not moved past acceptedFCnt. The test
+// and the write are one statement: of two handlers working on copies of one frame, or on
+// frames overtaking each other, only the first succeeds; the other gets ErrNotFound.
+func (s *Storage) AdvanceFCntUp(eui protocol.EUI, acceptedFCnt uint16, newFCntUp uint16, keyWarning bool) error {
+	return s.doSQLExec(s.devStmt.advanceUpStatement, func(st *sql.Stmt) (sql.Result, error) {
+		return st.Exec(newFCntUp, keyWarning, eui.ToInt64(), acceptedFCnt)
+	})
+}
+
+// NextFCntDn reserves the next downlink frame counter of the device: it returns the
+// stored counter and stores its successor in one statement, so no two downlinks of a
+// session are numbered alike however their encoders overlap.
+func (s *Storage) NextFCntDn(eui protocol.EUI) (uint16, error) {
+	s.mutex.Lock()
+	defer s.mutex.Unlock()
+	var next int64
+	err := s.devStmt.nextDownStatement.QueryRow(eui.ToInt64()).Scan(&next)
+	if err == sql.ErrNoRows {
+		return 0, ErrNotFound
+	}
+	if err != nil {
+		return 0, err
+	}
+	return uint16(next - 1), nil
 }
 
 // DeleteDevice removes a device from the store
